@@ -1,6 +1,6 @@
 //verif:package github.com/kstenerud/go-concise-encoding/internal/verifh/c09
 //verif:config cap=300 paths=600000
-//verif:bounds (a) encoder-produced CBE documents from 9 templates with symbolic payload, cut at every position; (b) raw documents of 3..4 (quick) / 5 (thorough) fully symbolic bytes that the decoder+validator accept, cut at every position (documents containing the padding code 0x95 excluded: a cut before trailing padding leaves a complete document)
+//verif:bounds (a) encoder-produced CBE documents from 11 templates with symbolic payload (two with >= 64 elements, so that a chunk header is a 2-byte ULEB128), cut at every position (long payloads: the first 8 and last 8 positions); (b) raw documents of 3..4 (quick) / 5 (thorough) fully symbolic bytes that the decoder+validator accept, cut at every position (documents containing the padding code 0x95 excluded: a cut before trailing padding leaves a complete document)
 //verif:assume 'partial result is a prefix of the full value' needs the builders (reflection) and is outside reach; CTE is outside reach
 package c09
 
@@ -19,7 +19,7 @@ func decode(doc []byte) error {
 	return cbe.NewDecoder(cfg).DecodeDocument(doc, rules.NewRules(nullevent.NewNullEventReceiver(), cfg))
 }
 
-const numTemplates = 9
+const numTemplates = 11
 
 func template(k int, v uint64) []byte {
 	cfg := configuration.New()
@@ -71,6 +71,13 @@ func template(k int, v uint64) []byte {
 		e.OnEndContainer()
 	case 8:
 		e.OnMedia("a/b", []byte{1, byte(v), 3})
+	case 9: // 70-byte string: the chunk header is a 2-byte ULEB128
+		e.OnStringlikeArray(events.ArrayTypeString, "0123456789012345678901234567890123456789012345678901234567890123456789")
+	case 10: // 64 uint16 elements in a list: 2-byte chunk header inside a container
+		e.OnList()
+		e.OnArray(events.ArrayTypeUint16, 64, make([]byte, 128))
+		e.OnPositiveInt(v & 0xff)
+		e.OnEndContainer()
 	}
 	e.OnEndDocument()
 	return sink.Buf
@@ -83,6 +90,13 @@ func Verif_C09_TemplatesCut() {
 	verifrt.Assert(decode(doc) == nil, "the full document decodes")
 	cut := verifrt.Choice("cut", 48)
 	verifrt.Assume(cut < len(doc))
+	if k >= 9 {
+		// long payloads: only the cuts in and around the headers and the tail
+		verifrt.Assume(cut < 8 || cut+40 > 48)
+		if cut >= 8 {
+			cut = len(doc) - (48 - cut)
+		}
+	}
 	verifrt.Reach("cut")
 	verifrt.Assert(decode(doc[:cut]) != nil, "a proper prefix of a valid document is rejected")
 }
